@@ -14,6 +14,26 @@ using namespace graphite2::vm;
 #define RLEN 1            /* rule length (slots the rule spans) */
 #endif
 
+// Stub (listed in the evidence): Machine::Code::decoder's constructor, same initial values, but the 256-entry context table is
+// cleared with one memset instead of 256 read-modify-write steps on bit-fields (cbmc: > 240 s for that loop alone).  The class is
+// private to Code.cpp, so its layout is mirrored here; the static_assert pins the size clang reports for the real class (568 bytes).
+struct vh_limits { const byte *bytecode; uint8 pre_context; uint16 rule_length, classes, glyf_attrs, features; byte attrid[gr_slatMax]; };
+struct vh_context { uint8 flags; uint8 codeRef; };
+struct vh_decoder {
+  Machine::Code *_code; int _out_index; uint16 _out_length; instr *_instr; byte *_data; vh_limits *_max; int _passtype; int _stack_depth;
+  bool _in_ctxt_item; int16 _slotref; vh_context _contexts[256]; byte _max_ref;
+};
+static_assert(sizeof(vh_decoder) == 568, "mirror of Machine::Code::decoder");
+extern "C" void vh_stub_decoder_ctor(vh_decoder *self, vh_limits *lims, Machine::Code *code, int pt) asm("_ZN9graphite22vm7Machine4Code7decoderC2ERNS3_6limitsERS2_NS_8passtypeE");
+void vh_stub_decoder_ctor(vh_decoder *self, vh_limits *lims, Machine::Code *code, int pt) {
+  self->_code = code;
+  self->_out_index = code->_constraint ? 0 : lims->pre_context;
+  self->_out_length = code->_constraint ? 1 : lims->rule_length;
+  self->_instr = code->_code; self->_data = code->_data; self->_max = lims; self->_passtype = pt;
+  self->_stack_depth = 0; self->_in_ctxt_item = false; self->_slotref = 0; self->_max_ref = 0;
+  memset(self->_contexts, 0, sizeof self->_contexts);
+}
+
 static void setup_limits(World &w) {
   w.silf->m_nClass = nondet_u16();
   w.face->m_Sill.m_FeatureMap.m_numFeats = nondet_u8() & 3;
